@@ -20,8 +20,7 @@ def run(chk):
     rc.run_runner_check(chk, "C05", "proj_C05", OPTS, theorems_ok=ok)
     if ok:
         import source_tie
-        source_tie.report(chk, source_tie.failure_tie(chk), "failure",
-                          "scripted call sequences (random, cap-mix, abort sentinels and sweeps): no property violation found")
+        source_tie.runner_ties(chk)
 
 
 def replay(path):
